@@ -41,13 +41,19 @@ def _n(tier, q, t):
 @provider('C19', 'C12')
 def coarse_grids(prop, tier, seed):
     cases = sc.coarse_grid_cases(seed, _n(tier, 24, 80))
+    # whole-window partition: aligned windows hold; the unaligned weekly one is known finding D25 (steps before the first anchor are dropped)
+    cases = [dict(tz=None, fine='h', coarse='d', start='2021-01-04', days=3, whole=True), dict(tz='CET', fine='h', coarse='W', start='2021-03-26', days=14, whole=True),
+             dict(tz=None, fine='d', coarse='W', start='2021-01-04', days=14, whole=True, unaligned=True, d25=True)] + cases
     b = run_cases(sc.check_coarse_grid, cases, 'real Timegrids: fine/coarse frequency pairs x zones (naive, CET, US/Eastern) x windows over both DST switches, two main time units; every case distinct',
                   'windows of 3-14 days, 5 frequency pairs', 40 if tier == 'quick' else 300)
     b['failures'] = [f for f in b['failures'] if f['name'].startswith(prop) or f.get('error')]
     roots = [dict(tz=tz, fine=f, start=s, days=d, unit=u) for tz in (None, 'CET') for f in ('h', '15min', 'd') for s in ('2021-03-27', '2021-10-30')
              for d in (2, 3) for u in ('h', 'd')]
     random.Random(seed).shuffle(roots)
-    b2 = run_cases(sc.check_root_grid, roots[:_n(tier, 16, 48)], 'real root grids over DST switches', 'horizons of 2-3 days', 20)
+    # anchored frequencies: aligned starts hold; the two unaligned ones are known finding D24 (the grid starts at the next anchor)
+    roots = [dict(tz=None, fine='W', start='2021-01-03', days=21, unit='h'), dict(tz='CET', fine='MS', start='2021-02-01', days=90, unit='d'),
+             dict(tz=None, fine='W', start='2021-01-04', days=21, unit='h', d24=True), dict(tz=None, fine='MS', start='2021-01-15', days=80, unit='d', d24=True)] + roots
+    b2 = run_cases(sc.check_root_grid, roots[:_n(tier, 20, 52)], 'real root grids over DST switches', 'horizons of 2-3 days', 20)
     b2['failures'] = [f for f in b2['failures'] if f['name'].startswith(prop) or f.get('error')]
     return dict(bounded=_merge(b, b2))
 
@@ -87,8 +93,9 @@ def split(prop, tier, seed):
              for (h, f) in ((48, 'h'), (49, 'h'), (55, 'h'), (52, '4h'), (24, 'h'), (30, 'h')) for st in (False, True)]
     rng.shuffle(cases)
     cases = [dict(hours=49, freq='h', interval='d', storage=False, orderbook='last', pseed=7), dict(hours=72, freq='4h', interval='d', storage=True, orderbook='first', pseed=8),
-             dict(hours=48, freq='h', interval='d', storage=False, orderbook=None, plant=True, pseed=9)] + cases
-    b = run_cases(sc.check_split, cases[:_n(tier, 10, 14)], 'split vs unsplit on a two-node portfolio (optionally with a storage, with an order book as first / last asset, one order per day, with a plant whose fuel efficiency differs from day to day); horizons aligned / one step over / several steps over the interval size; value, balance, step numbering, DCF accounting of the split problem',
+             dict(hours=48, freq='h', interval='d', storage=False, orderbook=None, plant=True, pseed=9),
+             dict(hours=48, freq='h', interval='d', storage=False, orderbook=None, infeasible_interval=True, pseed=3)] + cases
+    b = run_cases(sc.check_split, cases[:_n(tier, 11, 15)], 'split vs unsplit on a two-node portfolio (optionally with a storage, with an order book as first / last asset, one order per day, with a plant whose fuel efficiency differs from day to day); horizons aligned / one step over / several steps over the interval size; value, balance, step numbering, DCF accounting of the split problem',
                   'horizons up to 72 h, interval d', 60 if tier == 'quick' else 300)
     b['failures'] = [f for f in b['failures'] if f['name'].startswith(prop) or f.get('error')]
     return dict(bounded=b)
@@ -336,7 +343,9 @@ def coarse_kinds(prop, tier, seed):
     cases = [dict(kind=k, first=rng.random() < .5, seed=rng.randint(0, 9999), **c) for k in ('simple', 'spread', 'transport', 'multi')
              for c in (dict(hours=24, coarse='4h'), dict(hours=30, coarse='6h'), dict(dst=True, hours=0, coarse='W'))]
     rng.shuffle(cases)
-    return dict(bounded=run_cases(sc.check_coarse_kinds, cases[:_n(tier, 12, 12)], 'assets of four kinds on a coarser frequency than the portfolio (4h / 6h on hourly grids incl. a partial last interval; weekly on a daily CET grid over the DST switch): set-up succeeds, well-formed, constant rate within each coarse interval, transport efficiency per fine step, optimum = fine portfolio + equalities (uniform grids)',
+    # discounting inside a coarse interval: known finding D27 (one deterministic case)
+    cases = [dict(kind='simple', first=True, seed=5, hours=48, coarse='d', wacc=.8, d27=True)] + cases
+    return dict(bounded=run_cases(sc.check_coarse_kinds, cases[:_n(tier, 13, 13)], 'assets of four kinds on a coarser frequency than the portfolio (4h / 6h on hourly grids incl. a partial last interval; weekly on a daily CET grid over the DST switch): set-up succeeds, well-formed, constant rate within each coarse interval, transport efficiency per fine step, optimum = fine portfolio + equalities (uniform grids)',
                                   'grids of 14-30 steps', 50 if tier == 'quick' else 200))
 
 
@@ -346,3 +355,12 @@ def optimize_random(prop, tier, seed):
     cases = [dict(seed=rng.randint(0, 999999), mip=rng.random() < .4, all_fixed=rng.random() < .15, shuffle=rng.random() < .5) for _ in range(_n(tier, 80, 600))]
     return dict(bounded=run_cases(sc.check_optimize_random, cases, 'random small problems handed to OptimProblem.optimize (1-5 variables, 0-4 rows of random types U/L/S/N, duplicated / shuffled mapping rows, boolean flags on variables with bounds other than 0/1, all variables fixed): feasibility, row satisfaction by type, boolean flags, value = -c.x, optimality and failure <=> infeasible against scipy milp',
                                   '<= 5 variables, <= 4 rows', 60 if tier == 'quick' else 400))
+
+
+@provider('C08')
+def outside_inert(prop, tier, seed):
+    rng = random.Random(seed + 79)
+    cases = [dict(kind=k, where=w, seed=rng.randint(0, 9999)) for k in ('simple', 'contract_take', 'transport', 'ext_transport', 'storage', 'chp', 'plant', 'multi', 'scaled', 'orderbook')
+             for w in ('after', 'before')]
+    return dict(bounded=run_cases(sc.check_outside_inert, cases, 'an asset of each of ten kinds placed entirely before / after the horizon in a 5-asset portfolio: same optimal value as without it, no reported dispatch, output extractable',
+                                  '6 hourly steps', 40 if tier == 'quick' else 120))
